@@ -29,6 +29,8 @@ pub enum C15Case {
     MergeInto { max: u32 },
     /// fill / fill_start_to_end over a block of layouts
     Fill { block: usize },
+    /// the bigwigmerge tool
+    Tool(crate::clifam::MergeTool),
 }
 
 pub struct C15;
@@ -213,6 +215,9 @@ impl Check for C15 {
         for b in 0..(nl + 127) / 128 {
             v.push(C15Case::Fill { block: b });
         }
+        for t in crate::clifam::merge_tool_cases(quick) {
+            v.push(C15Case::Tool(t));
+        }
         Box::new(v.into_iter())
     }
     fn run(&self, case: &C15Case, out: &mut Outcome) {
@@ -311,6 +316,7 @@ impl Check for C15 {
                     }
                 }
             }
+            C15Case::Tool(t) => crate::clifam::c15_tool(t, out),
             C15Case::Fill { block } => {
                 let lays = wig_layouts(3, L);
                 for (li, lay) in lays.iter().enumerate().skip(block * 128).take(128) {
@@ -382,6 +388,7 @@ impl Check for C15 {
             "singles": "every shape with <=3 intervals alone, doubled, against its negation, against an empty stream",
             "merge_into": format!("all overlapping pairs on coordinates 0..={} x values {{0,1,2}}^2", if q {6} else {7}),
             "fill": "all WL(3) layouts x fill and fill_start_to_end with start in {0,1,first start} x end in {0,1,first,last end,L}",
+            "tools": crate::clifam::tool_space(),
         })
     }
     fn case_cap_s(&self) -> u64 {
@@ -393,8 +400,9 @@ impl Check for C15 {
 // C17 (library part)
 
 #[derive(Clone, Debug, Serialize, Deserialize)]
-pub struct C17Case {
-    pub file: WigCase,
+pub enum C17Case {
+    Lib { file: WigCase },
+    Tool(crate::clifam::AvgTool),
 }
 
 pub struct C17;
@@ -492,7 +500,7 @@ impl Check for C17 {
             opts.push(o);
         }
         let o1 = opts.clone();
-        let singles = wig_layouts(k, L).into_iter().enumerate().map(move |(i, l)| C17Case {
+        let singles = wig_layouts(k, L).into_iter().enumerate().map(move |(i, l)| C17Case::Lib {
             file: WigCase {
                 chroms: vec![WChrom { name: "c".into(), len: L, items: wig_items(&l, i, i / 3) }],
                 extra_sizes: vec![],
@@ -503,7 +511,7 @@ impl Check for C17 {
         let core = core_wig_layouts();
         let multi = (0..8usize).flat_map(move |li| {
             let core = core.clone();
-            opts.clone().into_iter().map(move |o| C17Case {
+            opts.clone().into_iter().map(move |o| C17Case::Lib {
                 file: WigCase {
                     chroms: ["chr1", "chr10", "chr2"]
                         .iter()
@@ -516,10 +524,18 @@ impl Check for C17 {
                 },
             })
         });
-        Box::new(singles.chain(multi))
+        let tools = crate::clifam::avg_tool_cases(quick).into_iter().map(C17Case::Tool);
+        Box::new(singles.chain(multi).chain(tools))
     }
     fn run(&self, case: &C17Case, out: &mut Outcome) {
-        let c = &case.file;
+        let c = match case {
+            C17Case::Lib { file } => file,
+            C17Case::Tool(t) => {
+                out.nontrivial = true;
+                crate::clifam::c17_tool(t, out);
+                return;
+            }
+        };
         let tags = wig_tags(c);
         let Some(bytes) = do_write_wig(c, out) else { return };
         out.nontrivial = c.chroms.iter().map(|c| c.items.len()).sum::<usize>() >= 2;
@@ -591,6 +607,7 @@ impl Check for C17 {
             "files": wig_layouts(if q {3} else {4}, L).len() + 24, "regions_per_chromosome": 136,
             "name_modes": ["column 4", "interval", "none", "column 1"],
             "paths": ["stats_for_bed_item", "bigwig_average_over_bed iterator"],
+            "tools": crate::clifam::tool_space(),
         })
     }
     fn case_cap_s(&self) -> u64 {
